@@ -29,6 +29,8 @@ from eos.pubsub.message import AttrsValueChanged
 from eos.pubsub.message import AttrsValueChangedMasked
 from eos.pubsub.message import EffectsStarted
 from eos.pubsub.message import EffectsStopped
+from eos.pubsub.message import ItemLoaded
+from eos.pubsub.message import ItemUnloaded
 from eos.pubsub.message import RahIncomingDmgChanged
 from eos.pubsub.subscriber import BaseSubscriber
 from eos.util.repr import make_repr_str
@@ -481,7 +483,15 @@ class ReactiveArmorHardenerSimulator(BaseSubscriber):
     def _handle_changed_dmg_profile(self, _):
         self.__clear_results()
 
+    def _handle_item_loaded_unloaded(self, msg):
+        # Ship resonances are simulation inputs: results obtained with (or
+        # without) another ship are no longer valid
+        if msg.item is self.__fit.ship:
+            self.__clear_results()
+
     _handler_map = {
+        ItemLoaded: _handle_item_loaded_unloaded,
+        ItemUnloaded: _handle_item_loaded_unloaded,
         EffectsStarted: _handle_effects_started,
         EffectsStopped: _handle_effects_stopped,
         AttrsValueChanged: _handle_attr_changed,
